@@ -12,12 +12,26 @@ Open Scope nat_scope.
 Definition distinct_jobs (clients : list (list op)) : Prop :=
   forall j, list_sum (map (tokops j) clients) <= 1.
 
+Lemma tokops_count : forall j ops, tokops j ops = count_occ Z.eq_dec (flat_map created ops) j.
+Proof.
+  induction ops; simpl; auto. rewrite count_occ_app, <- IHops.
+  destruct a; simpl; auto; destruct (Z.eq_dec j0 j); lia.
+Qed.
+Lemma distinct_jobs_NoDup : forall clients, NoDup (created_jobs clients) -> distinct_jobs clients.
+Proof.
+  intros clients N j. rewrite (NoDup_count_occ Z.eq_dec) in N. specialize (N j).
+  assert (E : list_sum (map (tokops j) clients) = count_occ Z.eq_dec (created_jobs clients) j).
+  { unfold created_jobs. clear. induction clients; simpl; auto.
+    rewrite count_occ_app, <- IHclients, tokops_count. auto. }
+  lia.
+Qed.
+
 Section Theorems.
   Variable bodies : Z -> body.
-  Variable isr_once : bool.
-  Notation code' := (code bodies isr_once).
+  Variable vr : variant.
+  Notation code' := (code bodies vr).
   Notation step' := (step pc code').
-  Notation reach clients := (jc_reachable bodies isr_once clients).
+  Notation reach clients := (jc_reachable bodies vr clients).
 
   Record Inv (c : config pc) : Prop := {
     inv1 : Inv1 c; inv2 : Inv2 c; invp1 : P1 c; invp2 : P2 c; invwr : WR c; invenq : ENQ c; inv3 : Inv3 c }.
@@ -145,7 +159,8 @@ Section Theorems.
     destruct pt; simpl in F; try discriminate;
       try (destruct k; simpl in *; try discriminate);
       try (destruct (bodies j); discriminate);
-      try (destruct isr_once; discriminate);
+      try (destruct (isr_once vr); discriminate);
+      try (destruct (clear_locked vr); discriminate);
       try (destruct front; discriminate);
       repeat split; auto; try discriminate.
   Qed.
@@ -248,7 +263,7 @@ Section Theorems.
 
   (* ---------- no deadlock ---------- *)
   Definition is_acquire (pt : point) : bool :=
-    match pt with Enq0 _ _ | Run0 | Done0 _ | Sp0 _ | Bg0 _ | Sj0 _ => true | _ => false end.
+    match pt with Enq0 _ _ | Run0 | Done0 _ | Sp0 _ | Bg0 _ | Sj0 _ | Clear0 => true | _ => false end.
   (* a job body that runs until stopped and has not been asked to stop *)
   Definition waiting_for_stop (c : config pc) (p : pc) : Prop :=
     exists j q, fst p = Job1 j q /\ bodies j = BWait /\ flags (sh c) j = false.
@@ -263,7 +278,8 @@ Section Theorems.
     unfold finished in F. unfold waiting_for_stop, lk.
     destruct pt; simpl in *;
       try (destruct k; simpl in *; try discriminate);
-      try (destruct isr_once; simpl in * );
+      try (destruct (isr_once vr); simpl in * );
+      try (destruct (clear_locked vr); simpl in * );
       try (destruct front; simpl in * );
       try (left; eexists; reflexivity);
       try (destruct (locks (sh c) 0) as [[oo nn]|] eqn:E;
@@ -300,7 +316,8 @@ Section Theorems.
         unfold finished in Fo. destruct pto; simpl in Fo; try discriminate;
           try (destruct ko; simpl in *; try discriminate; try lia);
           try (destruct (bodies j); discriminate);
-          try (destruct isr_once; discriminate);
+          try (destruct (isr_once vr); discriminate);
+          try (destruct (clear_locked vr); discriminate);
           try (destruct front; discriminate). }
       destruct (step_progress c o po Ho Fo) as [[c' S]|[[A' [o' [n' [L' Ne']]]]|[j [q [E1 _]]]]].
       + rewrite Stuck in S. discriminate.
@@ -309,4 +326,135 @@ Section Theorems.
         pose proof (i_wf _ (inv1 _ I) _ _ Ho) as W. unfold wf_pc in W. simpl in W.
         destruct ko; simpl in *; try discriminate. unfold held in Hd. simpl in Hd. lia.
   Qed.
+
+  (* ---------- is_running ---------- *)
+  Lemma fst_unw_to : forall e k, fst (unw_to e k) = Unw e.
+  Proof. induction k; simpl; auto. Qed.
+
+  (* repaired tree (one read into a local): the second, unlocked read of _active_agent does not
+     exist, so is_running has no `None.name` to raise on *)
+  Theorem is_running_single_read : forall clients c, isr_once vr = true -> reach clients c ->
+    forall u q n, nth_error (thr c) u = Some q -> fst q <> Isr1 n.
+  Proof.
+    intros clients c E R. unfold jc_reachable in R.
+    apply (reachable_ind_inv pc code' (jc_init clients)
+             (fun c => forall u q n, nth_error (thr c) u = Some q -> fst q <> Isr1 n)); auto.
+    - intros u q n H. simpl in H. apply nth_error_In in H. apply in_map_iff in H.
+      destruct H as [ops [<- _]]. unfold client. destruct ops as [|o r]; simpl; try discriminate.
+      destruct o; discriminate.
+    - clear c R. intros c t c' _ IH Hs.
+      apply step_inv in Hs;
+      destruct Hs as [[pt k] [Hp [[l [kf [s' [r [Hc [Hx Hc']]]]]]|[ch [kf [Hc Hc']]]]]];
+      [ case_code; try discriminate E; exec_inv Hx | case_code ].
+      all: intros uu qq nn Hu; simpl thr in Hu.
+      all: try (match type of Hu with nth_error (_ ++ _) _ = _ =>
+                  apply nth_error_app_one in Hu; destruct Hu as [[_ Hu]|[_ ->]]; [|discriminate] end).
+      all: eapply nth_error_set_nth in Hu; [|exact Hp]; destruct Hu as [[_ ->]|[_ Hu]]; [|eapply IH; eauto].
+      all: repeat match goal with |- context [fst (match ?x with _ => _ end)] => destruct x end.
+      all: try discriminate.
+      all: try (match goal with |- fst (ret_to ?k0) <> _ => destruct k0 as [[|o0 r0]| | |]; simpl; try discriminate; destruct o0; discriminate end).
+      all: try (rewrite fst_unw_to; discriminate).
+      all: try (match goal with |- fst (enter ?o0 _) <> _ => destruct o0; discriminate end).
+  Qed.
+
+  (* ---------- clear_queue under the lock (D46) ---------- *)
+  (* repaired tree: between len(queue) > 0 and popleft() nobody can empty the queue *)
+  Definition R3 (c : config pc) : Prop :=
+    forall u q, nth_error (thr c) u = Some q -> fst q = Run3 -> qu c <> [].
+
+  Lemma r3_step : forall c t c', clear_locked vr = true -> Inv1 c -> R3 c -> step' c t = Some c' -> R3 c'.
+  Proof.
+    intros c t c' E I r3 Hs. step_cases Hs I; try discriminate E.
+    all: intros uu qq Hu Hn; simpl thr in Hu.
+    all: try (match type of Hu with nth_error (_ ++ _) _ = _ =>
+                apply nth_error_app_one in Hu; destruct Hu as [[_ Hu]|[_ ->]]; [|discriminate Hn] end).
+    all: eapply nth_error_set_nth in Hu; [|exact Hp]; destruct Hu as [[_ ->]|[Hne Hu]].
+    (* other threads: whoever changes the queue holds the lock, as does the thread at Run3 *)
+    all: try (pose proof (r3 _ _ Hu Hn) as Hold; simpl; unfold updn; simpl;
+              first [ exact Hold
+                    | exfalso; destruct qq as [pq kq]; simpl in Hn; subst pq; apply Hne;
+                      eapply (lock_exclusive c); [exact I | exact Hu | exact Hp | reflexivity | reflexivity] ]; fail).
+    (* the moving thread *)
+    all: revert Hn; simpl.
+    all: repeat match goal with |- context [fst (match ?x with _ => _ end)] => destruct x eqn:? end.
+    all: try (rewrite fst_unw_to; discriminate).
+    all: try discriminate.
+    all: try (match goal with |- fst (ret_to ?k0) = _ -> _ => destruct k0 as [[|o0 r0]| | |]; simpl; try discriminate; destruct o0; discriminate end).
+    all: try (match goal with |- fst (enter ?o0 _) = _ -> _ => destruct o0; discriminate end).
+    all: intros _; destruct (qu c); simpl in *; discriminate.
+  Qed.
+
+  Theorem no_empty_take : forall clients c, clear_locked vr = true -> distinct_jobs clients -> reach clients c ->
+    ~ In SDeqEmpty (ev c).
+  Proof.
+    intros clients c E D R.
+    assert (X : Inv c /\ R3 c /\ ~ In SDeqEmpty (ev c)).
+    { unfold jc_reachable in R.
+      apply (reachable_ind_inv pc code' (jc_init clients) (fun c => Inv c /\ R3 c /\ ~ In SDeqEmpty (ev c))); auto.
+      - split; [apply inv_init; auto|]. split; [|simpl; tauto].
+        intros u q H Hn. simpl in H. apply nth_error_In in H. apply in_map_iff in H.
+        destruct H as [ops [<- _]]. unfold client in Hn. destruct ops as [|o r]; simpl in Hn; try discriminate.
+        destruct o; discriminate.
+      - clear c R. intros c t c' _ [I [r3 N]] Hs. split; [eapply inv_step; eauto|].
+        split; [eapply r3_step; eauto; apply (inv1 _ I)|].
+        pose proof (i_queue _ (inv2 _ I)) as Q. pose proof (inv1 _ I) as I1.
+        step_cases Hs I1.
+        all: unfold mk_begin_q, mk_begin_bg, mk_end, mk_raise, mk_ret, mk_exc in *;
+             simpl hist; unfold events; simpl map; fold (events (hist c)).
+        all: intros [Heq|Hin]; [|exact (N Hin)].
+        all: simpl in Heq; try discriminate Heq.
+        all: try (eapply (r3 _ _ Hp); [reflexivity | assumption]).
+        all: destruct (aqueue (ev c)); simpl in Q; inversion Q; subst; discriminate Heq. }
+    tauto.
+  Qed.
 End Theorems.
+
+(* ---------- the statements used by Props/C08.v, all quantifiers explicit ---------- *)
+Section Final.
+  Variable bodies : Z -> body.      (* what each job's execute() does: finish | raise | run until stopped *)
+  Variable once : variant.          (* which repaired methods the tree has *)
+  Variable clients : list (list op).
+  Hypothesis distinct : NoDup (created_jobs clients).
+  Let D := distinct_jobs_NoDup clients distinct.
+
+  Lemma final_every_schedule : forall schedule,
+    jc_reachable bodies once clients (jc_run bodies once (jc_init clients) schedule).
+  Proof. intros. apply run_reachable. apply reach_init. Qed.
+  Lemma final_run_model : forall choices,
+    jc_reachable bodies once clients (run_model bodies once clients choices).
+  Proof. intros. apply run_picks_reachable. apply reach_init. Qed.
+
+  Lemma final_mutex : forall c, jc_reachable bodies once clients c -> mutex (events (hist c)).
+  Proof. intros. eapply mutex_holds; eauto. Qed.
+  Lemma final_fifo : forall c, jc_reachable bodies once clients c -> fifo (events (hist c)).
+  Proof. intros. eapply fifo_holds; eauto. Qed.
+  Lemma final_at_most_once : forall c, jc_reachable bodies once clients c -> at_most_once (events (hist c)).
+  Proof. intros. eapply at_most_once_holds; eauto. Qed.
+  Lemma final_all_executed : forall c, jc_reachable bodies once clients c ->
+    quiescent pc (code bodies once) c -> all_executed (events (hist c)).
+  Proof. intros. eapply quiescent_all_executed; eauto. Qed.
+  Lemma final_raise : forall c, jc_reachable bodies once clients c ->
+    quiescent pc (code bodies once) c ->
+    forall j j', In (SRaise j) (events (hist c)) -> enqueued (events (hist c)) j' ->
+                 ~ In j' (cleared (events (hist c))) ->
+                 exec_count (events (hist c)) j' = 1 /\ left (events (hist c)) j'.
+  Proof. intros. eapply raise_does_not_block; eauto. Qed.
+  Lemma final_drained : forall c, jc_reachable bodies once clients c ->
+    quiescent pc (code bodies once) c ->
+    queue_of c = [] /\ active_of c = VNone /\ background_of c = [] /\ has_jobs_of c = false.
+  Proof. intros. eapply quiescent_drained; eauto. Qed.
+  Lemma final_no_deadlock : forall c, jc_reachable bodies once clients c ->
+    (forall t, jc_step bodies once c t = None) ->
+    forall t p, nth_error (thr c) t = Some p ->
+      finished pc (code bodies once) p = true \/ waiting_for_stop bodies c p.
+  Proof. intros. eapply no_deadlock; eauto. Qed.
+  Lemma final_background : forall c, jc_reachable bodies once clients c -> background_window (events (hist c)).
+  Proof. intros. eapply background_window_holds; eauto. Qed.
+  Lemma final_no_empty_take : clear_locked once = true ->
+    forall c, jc_reachable bodies once clients c -> ~ In SDeqEmpty (events (hist c)).
+  Proof. intros. eapply no_empty_take; eauto. Qed.
+  Lemma final_registered_alive : forall c, jc_reachable bodies once clients c ->
+    forall j, dict_has (background_of c) j = true ->
+      exists u pt k, nth_error (thr c) u = Some (pt, k) /\ bg_of pt = Some j.
+  Proof. intros. eapply registered_only_while_alive; eauto. Qed.
+End Final.
